@@ -199,7 +199,43 @@ def py_wrapper(ck):
             ck.struct("py.get_unix_time.microsecond_expr", not bad, "microsecond=%s differs from floor(ps/10^6) at ps=%s" % (us_src, bad[:3]),
                       meta={"no_input": False, "witness": bad[:3]})
     except (ValueError, AttributeError, IndexError) as e:
-        raise Undecided("get_unix_time has an unexpected shape (%r); contract needs review" % (e,))
+        # the body does not have the shape the structural clauses are written for: decide the same clauses by running the real
+        # function on a stand-in for the extension, over every whole-microsecond value and both ends of sampled remainder classes
+        bad = exec_wrapper(psn_hint="picosecond")
+        ck.struct("py.get_unix_time.plumbing", not [b for b in bad if b[0] == "plumbing"], "get_unix_time (body of unexpected shape, decided by execution): %s" % ([b for b in bad if b[0] == "plumbing"][:2],))
+        ck.struct("py.get_unix_time.microsecond_expr", not [b for b in bad if b[0] == "microsecond"],
+                  "the datetime's microsecond differs from floor(picosecond / 10^6): %s" % ([b[1:] for b in bad if b[0] == "microsecond"][:3],),
+                  meta={"no_input": False, "witness": [b[1:] for b in bad if b[0] == "microsecond"][:3]})
+
+
+def exec_wrapper(psn_hint="picosecond"):
+    import types, datetime
+    from checks import pyload
+    mod = pyload.module("digital_rf_hdf5", symbolic=False)
+    real = mod._py_rf_write_hdf5
+    bad = []
+    cur = {}
+    mod._py_rf_write_hdf5 = types.SimpleNamespace(get_unix_time=lambda a, b, c: (cur.setdefault("args", (a, b, c)), (2014, 3, 9, 12, 30, 30, cur["ps"]))[1])
+    try:
+        values = [m * 10 ** 6 for m in range(0, 10 ** 6)] + [m * 10 ** 6 + 999999 for m in range(0, 10 ** 6, 997)] + [m * 10 ** 6 + 1 for m in range(0, 10 ** 6, 991)]
+        for ps in values:
+            cur.clear()
+            cur["ps"] = ps
+            try:
+                dt, p2 = mod.get_unix_time(123456789, 200, 3)
+            except Exception as e:
+                bad.append(("plumbing", ps, "raised %r" % (e,)))
+                break
+            if cur.get("args") != (123456789, 200, 3) or p2 != ps or (dt.year, dt.month, dt.day, dt.hour, dt.minute, dt.second) != (2014, 3, 9, 12, 30, 30):
+                bad.append(("plumbing", ps, str(dt), p2))
+                break
+            if dt.microsecond != ps // 10 ** 6:
+                bad.append(("microsecond", ps, dt.microsecond, ps // 10 ** 6))
+                if len(bad) > 5:
+                    break
+    finally:
+        mod._py_rf_write_hdf5 = real
+    return bad
 
 
 def eval_us_expr(us, psn):
